@@ -26,12 +26,17 @@ class Ctx:
         self.res = res
         self.entry = _NS(entry or {})     # locals at loop entry (before the first iteration)
         self.x = _NS(extra or {})
+        self._heapL = (extra or {}).get('$loop_heap')
 
     def h(self, field):
         return self._heap.get(field)
 
     def h0(self, field):
         return self._heap0.get(field)
+
+    def hL(self, field):
+        """(loop invariants) heap array at loop entry"""
+        return self._heapL.get(field)
 
 
 class _NS:
